@@ -1234,7 +1234,10 @@ pub fn c19(c: &mut Ctx, b: &Budget) {
         let mut malformed = malformed;
         malformed.push(("annotated-attachment", good.add_assertion(known_values::NOTE, "a note")));
         malformed.push(("salted-attachment", good.add_salt()));
-        for (name, m) in malformed.iter().rev().take(2) {
+        // every malformed attachment inside a host, under filters that select it and filters that do not: the envelope holds an invalid
+        // attachment whichever attachments the caller asked for
+        for (name, m) in malformed.iter().rev() {
+            if !(m.is_subject_assertion() || m.is_subject_obscured()) { continue; }
             let host = e.add_assertion_envelope(m.clone()).unwrap();
             for (vf, cf) in [(Some("com.example"), None), (None, Some("conf")), (Some("com.example"), Some("conf")), (Some("nobody"), None)] {
                 let got = guarded(|| host.attachments_with_vendor_and_conforms_to(vf, cf).map(|v| v.len()));
